@@ -55,6 +55,18 @@ func (c *Ctx) ChooseCost(label string, n int, costs []int) int {
 // Choices returns the choices made so far in this execution.
 func (c *Ctx) Choices() []int { return c.choices }
 
+// Deviations returns the labels of the choice points at which this execution deviated
+// from the default answer (used for violation signatures).
+func (c *Ctx) Deviations() []string {
+	var out []string
+	for i, ch := range c.choices {
+		if ch != 0 {
+			out = append(out, c.points[i].label)
+		}
+	}
+	return out
+}
+
 type ExploreStats struct {
 	Execs    int64
 	Points   int64
